@@ -1495,6 +1495,10 @@ Error Assembler::_emit(InstId inst_id, const Operand_& o0, const Operand_& o1, c
               goto InvalidInstruction;
             }
 
+            if (!check_gp_id(o0, o1, kZR)) {
+              goto InvalidPhysId;
+            }
+
             if (shift_value >= op_size) {
               goto InvalidImmediate;
             }
@@ -1525,6 +1529,11 @@ Error Assembler::_emit(InstId inst_id, const Operand_& o0, const Operand_& o1, c
         // Validate whether the register operands match extend option.
         if (o1.as<Reg>().reg_type() != extend_option_to_reg_type(shift_type) || o0.as<Reg>().reg_type() < o1.as<Reg>().reg_type()) {
           goto InvalidInstruction;
+        }
+
+        // CMN|CMP (extend) - SP allowed in Rn, ZR allowed in Rm.
+        if (!check_gp_id(o0, kSP) || !check_gp_id(o1, kZR)) {
+          goto InvalidPhysId;
         }
 
         opcode.reset(uint32_t(op_data.extended_op) << 21);
